@@ -186,6 +186,34 @@ Next == \E r \in Requests : Do(r)
 
 Spec == Init /\ [][Next]_vars
 
+\* For -simulate (behaviours replayed into the real code): the simulator picks
+\* uniformly among successor states, so the first steps are confined to
+\* building providers and inventories; afterwards everything is allowed.
+BuildReqs ==
+       {[op |-> "rp_create", v |-> 39, u |-> u, name |-> u, parent |-> par] : u \in P, par \in {""} \cup Providers(s)}
+  \cup UNION {{[op |-> "inv_put_all", v |-> 39, u |-> u, gen |-> s.rp[u].gen, invs |-> q] :
+                 q \in {<<[rc |-> k, inv |-> i]>> : k \in K \cap (StdClasses \cup DOMAIN s.classes), i \in INVS}
+                      \cup {<<[rc |-> kk[1], inv |-> i], [rc |-> kk[2], inv |-> i]>> :
+                             kk \in Pairs(K \cap (StdClasses \cup DOMAIN s.classes)), i \in INVS}}
+               : u \in Providers(s)}
+  \cup {[op |-> "rc_post", v |-> 39, name |-> n] : n \in K \cap CustomClassPool}
+\* one randomly drawn request per operation group (TLC!RandomElement), so that
+\* every group is equally likely whatever the size of its alphabet
+SimGroups == {"forest", "inv", "put", "post", "del", "reshape", "names", "assoc", "reads"}
+SimReqsOf(g) ==
+  CASE g = "forest" -> ForestReqs
+    [] g = "inv" -> InvReqs
+    [] g = "put" -> {r \in AllocReqs : r.op = "alloc_put"}
+    [] g = "post" -> {r \in AllocReqs : r.op = "alloc_post"}
+    [] g = "del" -> {r \in AllocReqs : r.op = "alloc_del"}
+    [] g = "reshape" -> ReshapeReqs
+    [] g = "names" -> NamesReqs
+    [] g = "assoc" -> AssocReqs
+    [] OTHER -> ReadReqs
+SimNext == IF TLCGet("level") < 7 THEN Do(RandomElement(BuildReqs))
+           ELSE \E g \in SimGroups : SimReqsOf(g) # {} /\ Do(RandomElement(SimReqsOf(g)))
+SimSpec == Init /\ [][SimNext]_vars
+
 \* state constraint
 Bounded ==
   /\ TLCGet("level") <= MAXDEPTH
